@@ -32,6 +32,15 @@ CHECKS = {
             'serial notifier; snapshot semantics for GetServers',
             'Hypothesis op-list state machine with init-race provider; set equality + saturating probe',
             '5/C05', 'simkernel'),
+    'C06': ('exploration',
+            'Generated configurations and histories with virtual time (closed-loop steady phases of 35-60 s, jitter rounds, '
+            'failures, joins/leaves) against the real ApertureBalancerSink; every aperture adjustment is observed and checked '
+            'for partition/gauges, contraction floor, load-driven growth cap, direction given the published load average, '
+            'tracking of the smoothed load after 30 s, and settling when a stable size exists. Liveness is checked as '
+            'bounded-time safety.',
+            'channels open successfully; tracking band one wide; settling only when a stable size exists with 8% margins',
+            'Hypothesis op-list state machine on the virtual clock with instrumented aperture adjustments',
+            '5/C06', 'simkernel'),
     'C10': ('exploration',
             'Generated schedule/cancel/advance histories (actions may schedule or cancel) are run against the real '
             'TimerQueue on a virtual clock and compared with a reference schedule after every clock advance: '
